@@ -22,14 +22,14 @@ CHECKS = {
          "2-4 caller threads run under a one-at-a-time scheduler that decides every interleaving at the granularity the property states; at quiescence aggregates are compared with the listing and a per-order conservation equation is evaluated from all threads' responses and the step trace. Schedules are sampled (uniform, sticky, PCT, stall, op-boundary), failures replay from the recorded schedule list.",
          "Sequential consistency; one DashMap/SegQueue call = one atomic step (their linearizability is trusted); threads are also descheduled inside map guards (the simulator tracks held shard locks and makes conflicting requests wait), an iteration counts as holding all shards; explored executions are a subset of the real SC executions.", "DESIGN.md §4.1, §6, §8 C03"),
  "C04": ("S", "exploration", "deterministic simulation: seeded sequential histories; priority-stamp monitor over every transaction of every match",
-         "Histories rich in partial fills, cancel-then-re-add, same-price amends and replenishment; each transaction is checked against the arrival stamps the property prescribes (keep on partial fill / amend, back on replenish / add).",
-         "Orders displaying 0 are exempt (the property does not place them); zero quantities are off in this check.", "DESIGN.md §8 C04"),
+         "Histories rich in partial fills, cancel-then-re-add, same-price amends and replenishment, with occasional rebuilds from the level's own snapshot, big books (up to 260 orders), long histories (up to 1000 operations, rows of up to 1030 dead tickets) and a head-lane stress mode; each transaction is checked against the arrival stamps the property prescribes (keep on partial fill / amend, back on replenish / add), and in histories with zero-display orders every match is compared with a complete specification model of the match.",
+         "An order keeps its arrival stamp however often it is passed over while displaying 0. After a rebuild the monitor restarts from the listed order when that is unambiguous (strictly increasing timestamps), otherwise it stays silent until the book is empty.", "DESIGN.md §8 C04"),
  "C05": ("S", "exploration", "deterministic simulation: independent executable rule as per-visit oracle inside simulated histories, plus a completely enumerated single-order workload",
          "The documented per-order rule, written independently from the property text, is evaluated at every maker visit of every match and on read-only probes of reached states; the small-value grid and the 64-bit corner pool are swept completely on every run.",
          "Thin fit for this technique (pure function): the simulator contributes reached states and replayability, not schedules. Rule = DESIGN.md A.3.", "DESIGN.md §8 C05, A.3"),
  "C06": ("S", "exploration", "deterministic simulation: bounded liveness by step budget on instrumented operations",
          "Every match in histories with zero quantities runs under a step budget derived from a model bound on maker visits; a non-returning call becomes a deterministic BudgetExceeded after microseconds instead of a hang, and the post-conditions on remaining/displayed quantity are checked on return.",
-         "Budget = 64 x (visit bound + resting orders + 8) instrumented operations; every loop iteration of match_order and OrderQueue::pop performs at least one instrumented operation.", "DESIGN.md §4.3, §8 C06"),
+         "Budget = 64 x (visit bound + resting orders + 8) + 8 x (tickets issued so far, for the dead tickets a match steps over) instrumented operations, hard-capped; every loop iteration of match_order and OrderQueue::pop performs at least one instrumented operation.", "DESIGN.md §4.3, §8 C06"),
  "C07": ("S", "exploration", "deterministic simulation: before/after frame relations per update + twin run with read-only calls removed",
          "All five update kinds on present/absent ids at equal/other prices in states after fills and replenishments; the returned order, the frame (only that order changes) and the ledger are checked, and purity of reads is decided by running the same history with and without them.",
          "As C01.", "DESIGN.md §8 C07"),
@@ -37,7 +37,7 @@ CHECKS = {
          "After any sampled interleaving a huge match from the driver must reach every listed order (nothing with displayed quantity remains, aggregates describe what is left, every order listed at quiescence is accounted for); a third of the runs exercise OrderQueue alone with concurrent push/pop/remove/find and check that every pushed order is handed out exactly once.",
          "As C03.", "DESIGN.md §8 C08"),
  "C09": ("W", "fault_enumeration", "deterministic simulation of the storage seam: complete enumeration of single-position faults (torn write, byte substitution/deletion/insertion/duplication, digit flip) and structural edits per generated package, sampled fault pairs",
-         "For each generated package text the whole single-fault space is enumerated at every offset and restored through both entry points; a restore must fail or yield exactly the snapshotted content, and every proper prefix must fail. The evidence counts rejections per stage (syntax/strict deserializer, version gate, checksum) so that a run which never reached the checksum is visible.",
+         "For each generated package text the whole single-fault space is enumerated at every offset and restored through both entry points; a restore must fail or yield exactly the snapshotted content, every proper prefix must fail, and every edit that alters content (a number, the order sequence or count, a side, time-in-force or order type, a digit of the price, of an aggregate or of the checksum) must be rejected; one run in forty carries a 4-15 kB package; packages are also tampered at object level. The evidence counts rejections per stage (syntax/strict deserializer, version gate, checksum) so that a run which never reached the checksum is visible.",
          "SHA-256 collisions not expected; an attacker recomputing the checksum is out of scope.", "DESIGN.md §7, §8 C09"),
  "C10": ("S", "exploration", "deterministic simulation: crash/restart through seven rebuild paths with lying-aggregate faults, history continues on the rebuilt level",
          "The live level is rebuilt at arbitrary history points through every external form, with the aggregate fields of the intermediate form corrupted in half of the rebuilds; content equality, derived aggregates and listing shape are checked and later operations run on the rebuilt object.",
@@ -52,7 +52,7 @@ CHECKS = {
          "Cancels / amends racing matches on the same order; each not-found is judged against the order's book interval reconstructed from the step trace, each reported success against later appearances of the order. The holder at the failing lookup distinguishes the listed in-flight-match window from any other cause.",
          "Known finding C13/not-found-inflight-match is open (inherent to pop-compute-push). As C03.", "DESIGN.md §8 C13, §9"),
  "C14": ("T", "exploration", "deterministic simulation: controlled scheduler on the id generator; set equality with a sequential reference run of the same code",
-         "2-6 threads x up to 50 calls on one generator under sampled schedules; the ids must be duplicate-free and equal to the first N ids of a fresh sequential generator with the same namespace.",
+         "2-6 threads x up to 50 calls on one generator under sampled schedules; the ids must be duplicate-free and equal to the first N ids of a fresh sequential generator with the same namespace; the generator is then restarted from its durable (JSON) form and must not re-issue an id, also across restarts at counters around 2^8, 2^16, 2^32, 2^48.",
          "As C03; uuid crate trusted.", "DESIGN.md §8 C14"),
  "C15": ("S+T", "exploration", "deterministic simulation: sequential histories (checked after every op) and concurrent programs (checked at quiescence and after the drain) against event counts from the recorded history",
          "The four figures are compared with counts derived from the responses of the recorded history, as deltas since construction of the level object, in both engines.",
@@ -67,7 +67,7 @@ CHECKS = {
          "For each selected valid encoding every deletion, insertion, substitution (incl. multi-byte), digit flip, swap, duplication and truncation at every position is fed to the matching entry points, every valid encoding to all 31 entry points, and a fixed corpus to all of them; a panic or budget overrun is the violation.",
          "Inputs are valid UTF-8 (&str entry points). Loops in un-instrumented parsers are only caught by the process watchdog.", "DESIGN.md §8 C18"),
  "C19": ("S", "exploration", "deterministic simulation: seeded sequential operation sequences on the bare queue against a FIFO-with-removal list model",
-         "push / pop / find / remove / len / is_empty / to_vec and rebuilds (from_vec, From<Vec>, text, JSON) checked operation by operation against a list model, including re-push of ids after removal, with hasher seed and shard count varied.",
+         "push / pop / find / remove / len / is_empty / to_vec and rebuilds (from_vec, From<Vec>, text, JSON) checked operation by operation against a list model, including re-push of ids after removal, long programs with rows of up to 1030 dead tickets, and UUID / ULID ids with equal bits, with hasher seed and shard count varied.",
          "Pushes of a currently queued id are skipped (precondition).", "DESIGN.md §8 C19"),
 }
 
